@@ -64,6 +64,8 @@ def gen_case(seed, idx):
     for i in range(n):
         t += rng.choice([0, 0, 1, 2, 15]) * coarse
         ln = rng.choice([1, 2, 3]) * coarse
+        if rng.random() < 0.1:
+            ln = 40 * coarse  # a long row: later, shorter rows (and > 1 us gaps between them) are nested in it
         rows.append((t, t + ln))
         if rng.random() < 0.7:
             t += ln
